@@ -160,11 +160,13 @@ def gen_sched(ctx):
             if rng.chance(1, 3):
                 ops.append("n")
         for _ in range(rng.range(1, 14)):
-            r = rng.below(3)
+            r = rng.below(4)
             if r < 2:
                 ops.append("n")
-            elif added:
+            elif r == 2 and added:
                 ops.append(f"r:{rng.choice(added)}")
+            else:
+                ops.append(f"t:{rng.choice([1, 200, 4999, 5001, 6000, 20000, 600000])}")   # around and far beyond AgingAfter (5 s)
         ops += ["n"] * 3
         lines.append((thr, par, ops))
     return lines
@@ -226,7 +228,7 @@ def run(ctx):
         "rule": "sf: EXHAUSTIVE op sequences over {take,finish,tryEnd} up to length 6|7 for totals 0-3 (= all interleavings of any number of workers), "
                 "plan/verifyBegin/verdict inserted at all ordered position triples (sampled 1/3) into worker runs for sampled bitmaps, forceFrom in {0,total,random}, "
                 "seeded random sequences up to 60 ops on up to 12 chunks; run on the REAL sendFileState via its methods. non-trivial = sequences in which at least one chunk was handed out. "
-                "sched: random Add/Next/Remove histories on the real HybridScheduler; each real choice must be in the model's allowed set",
+                "sched: random Add/Next/Remove histories on the real HybridScheduler with the clock advanced by 1 ms .. 10 min between operations (around and beyond AgingAfter); each real choice must be in the model's allowed set, and the scheduler may decline only when the model allows nothing",
         "samples": [cases[500], cases[len(cases) // 2], cases[-1], mcases[0]],
         "disagreements_model_vs_impl": len(d1) + len(bad),
         "exhaustive": False,
